@@ -16,6 +16,7 @@
 //     overwritten) or on a local created by `make` in the same function that has not been aliased since;
 //   - when a callee returns a slice cut from one of its parameters (`return f[1:]`), the argument variable and the result variable are FROZEN in the
 //     caller: any later write to either is fatal; a slice-typed `x := y` / `x = y` (plain aliasing) is fatal;
+//   - every fr.Element / G1Affine method used as a statement or in a chain returns its receiver in every declaration with a body (checkReturnsReceiver);
 //   - `copy(dst, src)` only directly after `dst := make(..)`; no shadowing of a live variable; loops only of the form
 //     `for i := e; i >= 0; i-- { simple statements not assigning i }` (fuel = (i+1).toNat, exact).
 //
@@ -80,17 +81,18 @@ type kzSig struct {
 }
 
 type kzPkg struct {
-	curve, dir string
-	fset       *token.FileSet
-	structDecl map[string]*ast.StructType
-	alias      map[string]ast.Expr
-	structs    map[string][]kzField
-	structOrd  []string
-	errVars    []string
-	errMsg     map[string]string
-	funcs      map[string]*ast.FuncDecl
-	sigs       map[string]*kzSig
-	cfgFields  []kzField
+	curve, dir  string
+	fset        *token.FileSet
+	structDecl  map[string]*ast.StructType
+	alias       map[string]ast.Expr
+	structs     map[string][]kzField
+	structOrd   []string
+	errVars     []string
+	errMsg      map[string]string
+	funcs       map[string]*ast.FuncDecl
+	sigs        map[string]*kzSig
+	cfgFields   []kzField
+	usedMethods map[string]bool // "elem.Add", "point.Set", …: every one is checked to return its receiver (checkReturnsReceiver)
 }
 
 type kzFn struct {
@@ -244,7 +246,7 @@ func (p *kzPkg) fieldsOf(t *kzTy) []kzField {
 
 func loadKzg(curve string) *kzPkg {
 	p := &kzPkg{curve: curve, dir: "ecc/" + curve + "/kzg", fset: token.NewFileSet(), structDecl: map[string]*ast.StructType{}, alias: map[string]ast.Expr{},
-		structs: map[string][]kzField{}, errMsg: map[string]string{}, funcs: map[string]*ast.FuncDecl{}, sigs: map[string]*kzSig{}}
+		structs: map[string][]kzField{}, usedMethods: map[string]bool{}, errMsg: map[string]string{}, funcs: map[string]*ast.FuncDecl{}, sigs: map[string]*kzSig{}}
 	f, err := parser.ParseFile(p.fset, filepath.Join(repo, p.dir, "kzg.go"), nil, 0)
 	if err != nil {
 		die("imp/kzgopen: parse: %v", err)
@@ -649,6 +651,7 @@ func (f *kzFn) methodStmt(call *ast.CallExpr) []string {
 	}
 	var val string
 	m := se.Sel.Name
+	p.usedMethods[rt.k+"."+m] = true
 	switch {
 	case m == "Set" && len(args) == 1 && (rt.k == "elem" || rt.k == "point"):
 		val = args[0]
@@ -1204,6 +1207,7 @@ func runKzgOpen() {
 		for _, fn := range kzgOpenFuncs {
 			fns.WriteString(p.translate(fn))
 		}
+		p.checkReturnsReceiver()
 		var b strings.Builder
 		fmt.Fprintf(&b, "/- GENERATED by tools/goslp (impkzg.go) from /repo/%s/kzg.go on every run. DO NOT EDIT.\n", p.dir)
 		b.WriteString("   Statement-by-statement translation of the prover side of KZG over an abstract scalar type F and group-element type G;\n   vocabulary: Model/GoImp.lean; parameters and checked side conditions: see the header of tools/goslp/impkzg.go. -/\n")
@@ -1228,5 +1232,60 @@ func runKzgOpen() {
 		fmt.Fprintf(&b, "end GV.Gen.Imp.%s\n", ns)
 		writeFile(outName, b.String())
 		dieHook = nil
+	}
+}
+
+// A chain `z.Mul(..).Add(..)` is read as a sequence on z, and `z.M(..)` as a statement: sound when the method returns its receiver.
+// Every declaration WITH A BODY of every method used (fr.Element: ecc/<curve>/fr/*.go, all build-tag variants; G1Affine: ecc/<curve>/*.go) must
+// have a pointer receiver named r and only `return r` statements; at least one such declaration must exist.
+func (p *kzPkg) checkReturnsReceiver() {
+	for km := range p.usedMethods {
+		parts := strings.SplitN(km, ".", 2)
+		dir, recvTy := filepath.Join(repo, "ecc", p.curve, "fr"), "Element"
+		if parts[0] == "point" {
+			dir, recvTy = filepath.Join(repo, "ecc", p.curve), "G1Affine"
+		}
+		files, _ := filepath.Glob(filepath.Join(dir, "*.go"))
+		found := 0
+		for _, fn := range files {
+			if strings.HasSuffix(fn, "_test.go") {
+				continue
+			}
+			af, err := parser.ParseFile(p.fset, fn, nil, 0)
+			if err != nil {
+				die("imp/kzgopen: parse: %v", err)
+			}
+			for _, d := range af.Decls {
+				fd, ok := d.(*ast.FuncDecl)
+				if !ok || fd.Recv == nil || fd.Name.Name != parts[1] || fd.Body == nil || len(fd.Recv.List) != 1 {
+					continue
+				}
+				st, ok := fd.Recv.List[0].Type.(*ast.StarExpr)
+				if !ok || exprText(st.X) != recvTy || len(fd.Recv.List[0].Names) != 1 {
+					continue
+				}
+				rn := fd.Recv.List[0].Names[0].Name
+				found++
+				nret := 0
+				ast.Inspect(fd.Body, func(n ast.Node) bool {
+					if _, isLit := n.(*ast.FuncLit); isLit {
+						return false
+					}
+					if r, ok := n.(*ast.ReturnStmt); ok {
+						nret++
+						if len(r.Results) != 1 || exprText(r.Results[0]) != rn {
+							p.die(r, "method %s.%s does not return its receiver (chains / statements on it are read as sequences)", recvTy, parts[1])
+						}
+					}
+					return true
+				})
+				if nret == 0 {
+					p.die(fd, "method %s.%s has no return", recvTy, parts[1])
+				}
+			}
+		}
+		if found == 0 {
+			die("imp/kzgopen %s: no declaration with a body of method %s.%s", p.curve, recvTy, parts[1])
+		}
 	}
 }
